@@ -70,7 +70,13 @@ def gen_param_design(rng, odd=False):
     for _ in range(rng.randrange(1, 5)):
       kval = rng.choice(ODD[:2]) if odd and rng.random() < 0.5 else {"kind": "int", "v": rng.randrange(0, 8)}
       tag = rng.choice(ODD) if odd and rng.random() < 0.7 else gen_param(rng, True)
-      g.append([rng.randrange(2), kval, tag, gen_param(rng, True), rng.randrange(16), rng.randrange(0, 4)])
+      shape = rng.randrange(16)
+      ov = {}
+      if rng.random() < 0.3:
+        # overrides applied with set_param before elaboration (only parameters the call does not pass positionally)
+        if not shape & 8 and rng.random() < 0.7: ov["inc"] = rng.randrange(0, 4)
+        if rng.random() < 0.5: ov["opt"] = rng.randrange(0, 8)
+      g.append([rng.randrange(2), kval, tag, gen_param(rng, True), shape, rng.randrange(0, 4), ov])
     if rng.random() < 0.6 and g:
       # instances that differ from g[0] in exactly ONE parameter (a name that ignores a parameter would alias them)
       base = g[0]
@@ -78,7 +84,9 @@ def gen_param_design(rng, odd=False):
         v = list(base)
         if pos == 0: v[0] = 1 - base[0]
         elif pos == 1: v[1] = {"kind": "int", "v": (base[1]["v"] + rng.randrange(1, 4)) % 8 if base[1]["v"] >= 0 else 1}
-        elif pos == 4: v[4] = rng.randrange(16)                    # same values, other call shape (defaults vs keywords)
+        elif pos == 4:
+          v[4] = rng.randrange(16)                    # same values, other call shape (defaults vs keywords)
+          if v[4] & 8 and "inc" in v[6]: v[6] = {k_: x for k_, x in v[6].items() if k_ != "inc"}
         elif pos == 5: v[5] = (base[5] + rng.randrange(1, 4)) % 4; v[4] = base[4] | 1     # other `inc`, passed explicitly
         else:
           nv = gen_param(rng, True)
@@ -188,9 +196,10 @@ def expected_full_name(item):
   """documented naming scheme: <class>__<param>_<str(value)>... with the values the instance REALLY has (defaults filled in)"""
   c = item["cfg"]
   shape = c[4]
-  inc = str(c[5]) if shape & 1 else "1"
+  ov = c[6] if len(c) > 6 else {}
+  inc = str(ov["inc"]) if "inc" in ov else str(c[5]) if shape & 1 else "1"
   tag = pstr(c[2]) if shape & 2 else "None"
-  opt = pstr(c[3]) if shape & 4 else "0"
+  opt = str(ov["opt"]) if "opt" in ov else pstr(c[3]) if shape & 4 else "0"
   k = pstr(c[1]); T = pstr(item["T"])
   if None in (tag, opt, k, T): return None
   return f"{'Leaf' if c[0] == 0 else 'Leaf2'}__T_{T}__k_{k}__inc_{inc}__tag_{tag}__opt_{opt}"
